@@ -30,13 +30,13 @@ def date_template(rng):
         return [y, m, d], "Ymd" + ("-spacepad" if "% " in y + m + d else "") + ("-romY" if y == "%OY" else ""), None
     if k == 2:
         y = rng.choice(["%Y", "%Y", "% Y", "%-Y"])
-        j = rng.choice(["%j", "%D", "%j", "% j", "%-j", "%0j"])
+        j = rng.choice(["%j", "%D", "%j", "% j", "%-j", "%0j", "%jth"])
         return [y, j], "Yj" + ("-pad" if y + j != "%Y" + j[:1] + j[-1:] or len(j) > 2 else ""), None
     if k == 3:
         wd = rng.choice(["%u", "%a", "%A", "%_a"])
-        return ["%G", "%V", wd], "GVu", None
+        return ["%G", rng.choice(["%V", "%V", "% V", "%-V"]), wd], "GVu", None
     if k == 4:
-        return ["%Y", rng.choice(["%m", "%b", "%B"]), "%c", rng.choice(["%w", "%u", "%a", "%A"])], "Ymcw", None
+        return ["%Y", rng.choice(["%m", "%b", "%B"]), rng.choice(["%c", "%c", "% c", "%-c"]), rng.choice(["%w", "%u", "%a", "%A"])], "Ymcw", None
     if k == 5:
         return ["%s"], "s", None
     if k == 6:
@@ -44,7 +44,7 @@ def date_template(rng):
     if k == 7:
         x = rng.choice(["%a", "%A", "%_a", "%j", "%V"])
         return ["%Y", "%m", "%d", x], "Ymd+" + x[1:], None
-    return ["%Y", rng.choice(["%U", "%W"]), rng.choice(["%w", "%u", "%a"])], "YUw", None
+    return ["%Y", rng.choice(["%U", "%W", "% U", "% W", "%-U"]), rng.choice(["%w", "%u", "%a"])], "YUw", None
 
 
 def time_template(rng):
@@ -52,7 +52,8 @@ def time_template(rng):
     if k == 0:
         return ["%T"], "T"
     if k == 1:
-        return ["%H", "%M", "%S"], "HMS"
+        p_ = rng.choice(["%", "%", "% ", "%-"])
+        return [p_ + "H", p_ + "M", p_ + "S"], "HMS"
     if k == 2:
         return ["%I", "%M", "%S", rng.choice(["%p", "%P"])], "IMSp"
     return ["%H", "%M", "%S", "%N"], "HMSN"
